@@ -246,7 +246,45 @@ func (g *detGen) observe(v *Node) *Node {
 }
 
 func (g *detGen) form() *Node {
-	switch g.r.Pick([]int{10, 3, 2, 2, 2, 2, 1, 2, 3, 2, 2, 2, 3, 3, 1, 8, 3, 3}) {
+	switch g.r.Pick([]int{10, 3, 2, 2, 2, 2, 1, 2, 3, 2, 2, 2, 3, 3, 1, 8, 3, 3, 3, 3}) {
+	case 18:
+		// text handed to the library parsers, well-formed and not quite: what
+		// they make of it may not depend on the host (time zone, locale)
+		ts := PickStr(g.r, []string{"2024-01-02T03:04:05Z", "2024-01-02T03:04:05", "2024-01-02T03:04:05.5", "2024-01-02 03:04:05", "2024-01-02T03:04:05+05:30",
+			"2024-06-30T23:59:59-08:00", "2024-01-02", "2024-01-02T03:04Z", "2024-01-02t03:04:05z", "2024-03-10T02:30:00", "2024-11-03T01:30:00", "0000-01-01T00:00:00Z"})
+		switch g.r.Intn(5) {
+		case 0:
+			return Call("time:format-rfc3339-nano", Call("time:parse-rfc3339", Str(ts)))
+		case 1:
+			return Call("time:format-rfc3339", Call("time:parse-rfc3339-nano", Str(ts)))
+		case 2:
+			return Call("to-string", Call("time:parse-duration", Str(PickStr(g.r, []string{"1h", "1.5h", "90", "1d", "1h 5m", "-5ms", "1µs", "1us", "١s"}))))
+		case 3:
+			return Call("list", Call("to-int", Str(PickStr(g.r, []string{"12", "1,5", "1.5", "١٢", " 7", "0x10", "1e3"}))), Call("to-float", Str(PickStr(g.r, []string{"1.5", "1,5", "1e3", "inf", "NaN", ".5"}))))
+		default:
+			return Call("time:format-rfc3339-nano", Call("time:time-add", Call("time:parse-rfc3339", Str("2024-03-10T09:59:59Z")), Call("time:parse-duration", Str("1s"))))
+		}
+	case 19:
+		// a misspelt reference with several equally near candidates: whatever
+		// the message says (or suggests), it says it every time
+		fam := g.sym("fam")
+		for _, sfx := range []string{"-a", "-b", "-c"} {
+			g.out = append(g.out, Call("progn", Call("in-package", QS(fam+sfx)), Call("export", QS("val-a"), QS("val-b"), QS("val-c")),
+				Call("set", QS("val-a"), I(1)), Call("set", QS("val-b"), I(2)), Call("set", QS("val-c"), I(3)),
+				L(A("defun"), A("fn-a"), L(), I(1)), L(A("defun"), A("fn-b"), L(), I(2)), Call("in-package", QS("user"))))
+		}
+		return PickNode(g.r,
+			A(fam+"-d:val-a"),
+			A(fam+"-a:val-d"),
+			L(A(fam+"-b:fn-c")),
+			Call("use-package", QS(fam+"-d")),
+			Call("set", QS(fam+"-e:val-a"), I(1)),
+			L(A("let"), L(L(A("item-a"), I(1)), L(A("item-b"), I(2)), L(A("item-c"), I(3))), A("item-d")),
+			L(A("json:dmp-string"), I(1)),
+			L(A("time:parse-rfc3338"), Str("x")),
+			A("jsn:dump-string"),
+			A("tmie:utc-now"),
+			L(A("flet"), L(L(A("go-a"), L(), I(1)), L(A("go-b"), L(), I(2))), L(A("go-c"))))
 	case 16:
 		// one closure reachable under different names from several packages; an
 		// error raised through it is reported with a function name
